@@ -437,7 +437,7 @@ func errClass(err error) int {
 	switch {
 	case err == io.EOF:
 		return 1
-	case errors.Is(err, mock.ErrNoMoreFrames):
+	case errors.Is(err, mock.ErrNoMoreFrames), transportEnded(err):
 		return 2
 	case errors.As(err, &tooBig):
 		return 3
@@ -715,6 +715,8 @@ func decodeCaseT(c *core.Ctx, enc bool, frames []mock.Frame, dataTerm string, op
 	if okAll {
 		c.Count("dec-all-ok")
 	}
+	// the same frames through a REAL stream.Stream (real.go)
+	realAlso(c, enc, frames, dataTerm, ops, expected, obs, desc)
 	for _, g := range ops {
 		if g.Op == "float" { // GetFloat = float32(GetDouble): the narrowing is not in the Coq model; oracle only
 			c.Count("dec-float-oracle-only")
@@ -1087,6 +1089,7 @@ func gen(c *core.Ctx) error {
 	genDoubles(c)
 	genAPIs(c)
 	genHuge(c)
+	genReal(c)
 	for _, a := range core.SortedKeys(called) {
 		c.CountN("api-"+a, called[a])
 	}
@@ -1330,13 +1333,15 @@ func concat(fr []mock.Frame) []byte {
 
 func replay(raw json.RawMessage) error {
 	var d struct {
-		Kind  string     `json:"kind"`
-		Enc   bool       `json:"enc"`
-		Vals  []val      `json:"vals"`
-		Cuts  []int      `json:"cuts"`
-		Pairs [][2]int64 `json:"pairs"`
-		API   string     `json:"api"`
-		N     int        `json:"n"`
+		Kind   string     `json:"kind"`
+		Enc    bool       `json:"enc"`
+		Vals   []val      `json:"vals"`
+		Cuts   []int      `json:"cuts"`
+		Pairs  [][2]int64 `json:"pairs"`
+		API    string     `json:"api"`
+		N      int        `json:"n"`
+		Real   bool       `json:"real"`   // the failure was observed on a real stream.Stream (real.go)
+		Remain bool       `json:"remain"` // dec-real: the last value is read with GetRemainingBytes
 	}
 	if err := json.Unmarshal(raw, &d); err != nil {
 		return err
@@ -1362,6 +1367,9 @@ func replay(raw json.RawMessage) error {
 			return fmt.Errorf("%s", msg)
 		}
 		return nil
+	}
+	if d.Kind == "dec-real" {
+		return replayReal(d.Enc, d.Vals, d.Cuts, d.Remain)
 	}
 	if d.Kind == "dec-pairs" {
 		var data []byte
@@ -1408,6 +1416,17 @@ func replay(raw json.RawMessage) error {
 		r := doGet(rm, g)
 		if !sameRes(r, expect(d.Vals[i])) {
 			return fmt.Errorf("value %d decoded as %s", i, strings.TrimSpace(trunc(r.term())))
+		}
+	}
+	if d.Real && realRunnable(fr) {
+		rs, err := realDecode(d.Enc, fr, opsFor(d.Vals))
+		if err != nil {
+			return err
+		}
+		for i, r := range rs {
+			if !sameRes(r, expect(d.Vals[i])) {
+				return fmt.Errorf("REAL stream: value %d decoded as %s, sender put %s", i, strings.TrimSpace(trunc(r.term())), trunc(expect(d.Vals[i]).term()))
+			}
 		}
 	}
 	return nil
